@@ -19,9 +19,11 @@ rm $WT/$PKG/zz_seed_demo_test.go
 BL=$(python3 /verif/tools_baseline.py $WT | head -1)
 git -C /repo worktree remove --force $WT
 echo "demo without patch rc=$WO (want 0); with patch rc=$WI (want !=0); baseline with patch: $BL"
-git -C /repo apply $SRC/patch.diff
-rm -rf /tmp/evidence.bak && cp -r /verif/evidence /tmp/evidence.bak; cd /verif && ./check $PROP quick > /tmp/seed-$ID-check.txt 2>&1; RC=$?
-git -C /repo checkout -- .; rm -rf /verif/evidence && mv /tmp/evidence.bak /verif/evidence
+M=/tmp/repo_mut
+git -C /repo worktree remove --force $M 2>/dev/null; git -C /repo worktree prune
+git -C /repo worktree add -q $M HEAD && git -C $M apply $SRC/patch.diff
+rm -rf /tmp/evidence.bak && cp -r /verif/evidence /tmp/evidence.bak; cd /verif && VERIF_REPO=$M ./check $PROP quick > /tmp/seed-$ID-check.txt 2>&1; RC=$?
+git -C /repo worktree remove --force $M; rm -rf /verif/evidence && mv /tmp/evidence.bak /verif/evidence
 grep -E "SUMMARY|VIOLATION|signature|INFRA" /tmp/seed-$ID-check.txt | cut -c1-220
 echo "check rc=$RC"
 mkdir -p /verif/seeded/$ID
